@@ -9,6 +9,7 @@ import ScVerif.C09.Bus
 import ScVerif.C09.Writers
 import ScVerif.C09.ReadOpts
 import ScVerif.C09.UpdateKind
+import ScVerif.C09.DeleteRetry
 /-! Driver handler for C09.
 
 * `merge <a> <b>`                 → `mergeChanges a b` (`drop` when `send == false`)
@@ -58,6 +59,11 @@ import ScVerif.C09.UpdateKind
                                   `<atRead>` for it, `commit` at a store holding `<atCommit>` (`-` = absent, `_` = the empty message, which
                                   is also the provisional message; `<cia>` = `1|0`: WithCreateIfAbsent) → `NotFound` | `Aborted` |
                                   `<KIND>,<old>,<new>`
+* `dcommit <am> <expect> <atRead> <w>*`  `Collection.Delete` of one item (DeleteRetry.lean): the optimistic read finds `<atRead>`,
+                                  attempt k finds `<w_k>` stored under the write lock (after the last one given the store stays as
+                                  it is); an item is `<body>#<ptr>` (`_` = the empty message) or `-`; `<am>` = WithAllowMissing,
+                                  `<expect>` = `n` | the WithExpectedValue body → `NotFound` | `nil` | `FailedPrecondition,<body>` |
+                                  `Unavailable` | `REMOVE,<old>,ret=<body>,attempt=<k>`
 * `set <deadline> <listener>*`    `Value.set` after its commit: `Bus.Send` as above, then the error mapping
                                   (`setReturnsError`) → `error@<t>` or `ok@<t>`
 -/
@@ -431,8 +437,39 @@ def showStored : Option String → String
   | none => "-"
   | some v => if v = "" then "_" else v
 
+def parseSlot? (s : String) : Option (Option (Slot String)) :=
+  if s = "-" then some none
+  else match s.splitOn "#" with
+    | [b, p] => do
+      let b ← parseStored? b
+      let b ← b
+      let p ← parseNat? p
+      pure (some ⟨p, b⟩)
+    | _ => none
+
 def handle? (toks : List String) : Option String :=
   match toks with
+  | "dcommit" :: am :: expect :: atRead :: ws => do
+    let am ← parseFlag? am
+    let first ← parseSlot? atRead
+    let ws ← ws.mapM parseSlot?
+    let chk : String → Bool ← (if expect = "n" then some (fun _ => true) else do
+      let e ← parseStored? expect
+      let e ← e
+      pure (fun b => b == e))
+    let world : Nat → Option (Slot String) := fun a =>
+      match ws[a]? with
+      | some w => w
+      | none => match ws.getLast? with
+        | some w => w
+        | none => first
+    match deleteCall (ι := String) ⟨"a", am, chk⟩ first world with
+    | .notFound => pure "NotFound"
+    | .missingOk => pure "nil"
+    | .failed b => pure ("FailedPrecondition," ++ showStored (some b))
+    | .unavailable => pure "Unavailable"
+    | .removed k ret ev =>
+      pure (showKind ev.kind ++ "," ++ showStored ev.old ++ ",ret=" ++ showStored (some ret) ++ ",attempt=" ++ toString k)
   | ["ucommit", cia, atRead, atCommit, msg] => do
     let cia ← parseFlag? cia
     let r0 ← parseStored? atRead
